@@ -808,3 +808,30 @@ def sweep_descs(target, cid, reg_filter=None, alternatives=None, pair_product=Tr
             if key not in seen:
                 seen.add(key)
                 yield {"target": target, "cls": cid, "args": args}
+
+
+def small_int_descs(target, cid, max_values=8, int_filter=None):
+    """Descriptions that give every int operand with at most `max_values` alias-free accepted
+    values (probe_reps) each of these values, other operands at their defaults -- once per
+    constructor alternative that has such an operand (msp430 constant-generator sources
+    #-1/0/1/2/4/8, ...)."""
+    cls = class_by_id(target, cid)
+    reps = probe_reps(target, cid)
+    seen = set()
+    for path in int_paths(cls):
+        vals = reps.get(path, ())
+        if not vals or len(vals) > max_values:
+            continue
+        base = base_desc(target, cid, path)
+        if base is None or get_at(base["args"], path) is None:
+            continue
+        pred = int_filter(path) if int_filter is not None else None
+        for v in vals:
+            if pred is not None and not pred(v):
+                continue
+            args = set_at(base["args"], path, v)
+            key = repr(args)
+            if key not in seen:
+                seen.add(key)
+                yield {"target": target, "cls": cid, "args": args}
+
